@@ -170,6 +170,8 @@ struct C05 : public Driver {
         // targets cannot hold such a tree, so only the byte forms are compared then.
         const bool refIsDocument = ref.status == 0 && !ref.threw && (refCanon = canonOf(ref)).compare(0, 16, "NOT-WELL-FORMED:") != 0;
         if (ref.status == 0 && !ref.threw && !refIsDocument) res.count("probe:result-is-not-a-document");
+        // every generated stylesheet writes one document element with the xml output method: without a fault, output that does not parse is wrong whatever the forms agree on
+        if (ref.status == 0 && !ref.threw && !refIsDocument && !faulty) res.violate("expected-output", "well-formed-xml", "the xml output of the reference form does not parse: " + refCanon.substr(0, 200));
         // observations whose content the generator knows beforehand (every form shares the engine, so agreement between forms says nothing about them)
         if (refIsDocument && plan.has("expect")) for (auto& e : plan.at("expect").a) {
             if (e.a.size() != 2) continue; const std::string mk = "^f=" + e.a[0].s + ";"; size_t q = refCanon.find(mk); if (q == std::string::npos) continue;
